@@ -3,7 +3,10 @@ use crate::push::instructions::InstructionCache;
 use crate::push::item::Item;
 use crate::push::state::PushState;
 use crate::push::state::*;
+#[cfg(not(feature = "verif"))]
 use std::collections::HashMap;
+#[cfg(feature = "verif")]
+use crate::push::verif_seam::DetMap as HashMap;
 #[cfg(not(feature = "verif"))]
 use std::process::Command;
 #[cfg(feature = "verif")]
